@@ -313,6 +313,34 @@ def build_obj(ast):
     raise RuntimeError
 
 
+class _Unencodable:
+    """a value no AVP type can encode"""
+    def __repr__(self):
+        return "<unencodable>"
+
+
+def deepest_scalar(ast):
+    """path (attribute names / list indexes) to the most deeply nested set scalar attribute of an object literal"""
+    sd = side()
+    best = None
+    if ast[0] == "O":
+        for attr, v in ast[2]:
+            name = sd["names"][attr]
+            if v[0] == "S":
+                cand = [name]
+            elif v[0] == "O":
+                sub = deepest_scalar(v)
+                cand = [name] + sub if sub else None
+            elif v[0] == "M" and v[1]:
+                sub = deepest_scalar(v[1][0])
+                cand = [name, 0] + sub if sub else None
+            else:
+                cand = None
+            if cand and (best is None or len(cand) > len(best)):
+                best = cand
+    return best
+
+
 def build_obj_two_phase(ast, deferred: list):
     """Like build_obj, but only part of the content is there at first; the
     thunks in `deferred` complete it in place (setattr on the same objects,
@@ -588,6 +616,32 @@ def _real(line: str) -> str:
             two = gen(o2)
             if two != one:
                 return f"STALE after-completion={two} fresh={one}"
+            # the same values after an encode that failed: the deepest scalar attribute holds something that cannot be
+            # encoded, generation raises, the value is put right, generation is repeated on the same objects
+            path = deepest_scalar(ast)
+            if path:
+                o3 = build_obj(ast)
+                holder = o3
+                for step in path[:-1]:
+                    holder = holder[step] if isinstance(step, int) else getattr(holder, step)
+                good = getattr(holder, path[-1])
+                setattr(holder, path[-1], _Unencodable())
+                raised = False
+                try:
+                    gen(o3)
+                    if isinstance(o3, Message):
+                        o3.as_bytes()
+                except Exception:  # noqa
+                    raised = True
+                setattr(holder, path[-1], good)
+                if raised:
+                    three = gen(o3)
+                    if three != one:
+                        return f"STALE after-failed-encode={three} fresh={one}"
+                    o4 = build_obj(ast)            # … and unrelated fresh objects afterwards
+                    four = gen(o4)
+                    if four != one:
+                        return f"STALE fresh-after-failed-encode={four} fresh={one}"
             return one
         if cmd == "ASSIGN":
             cid = int(toks[1])
